@@ -6,6 +6,7 @@ Property theorems only; the work is in Lemmas/Wire*.lean.  Models: Model/WireDec
 specification: Spec/Grammar.lean.  `Gen.*` is regenerated from /repo on every run (Tie A).
 -/
 import JsonV.Model.Validate
+import JsonV.Model.TokenLoop
 import JsonV.Spec.Grammar
 import JsonV.Lemmas.WireBasic
 import JsonV.Lemmas.WireNumberScan
@@ -213,32 +214,39 @@ def gopts (o : VOpts) : GOpts := ⟨!o.allowInvalidUTF8, o.allowDup⟩
 (the name unescaped by AppendUnquote, or its inner bytes when the scanner found it verbatim) -/
 def nameKey (o : VOpts) (quoted : Bytes) : Bytes := unescapedName quoted (valueString o quoted).2.1
 
-/-- Soundness, names not judged: whatever `consumeValue` accepts at depth `d + 1` (the decoder's
-one-based depth) is a value of the RFC 8259 grammar nested at most `maxNestingDepth` deep, with
-strings in the selected UTF-8 mode (the grammar instance with `allowDup := true`). -/
-theorem value_sound_partial (o : VOpts) (fuel d : Nat) (r : Bytes) (n : Nat) (hd : d ≤ maxNestingDepth)
+/-- Soundness of the value path: whatever `consumeValue` accepts at depth `d + 1` (the decoder's
+one-based depth) is a value of the RFC 8259 grammar nested at most `maxNestingDepth` deep, with strings in
+the selected UTF-8 mode and — unless AllowDuplicateNames — member names of every object pairwise
+different after unescaping. -/
+theorem value_sound (o : VOpts) (fuel d : Nat) (r : Bytes) (n : Nat) (hd : d ≤ maxNestingDepth)
     (h : consumeValue o fuel (d + 1) r = (n, .ok)) :
-    n ≤ r.length ∧ JValue ⟨!o.allowInvalidUTF8, true⟩ maxNestingDepth id d (r.take n) :=
+    n ≤ r.length ∧ JValue (gopts o) maxNestingDepth (nameKey o) d (r.take n) :=
   (sound_all o fuel).1 d r n hd h
 
-/-- Soundness of `Value.IsValid`'s framing (names not judged): accepted ⇒ `ws value ws`. -/
-theorem valid_sound_partial (o : VOpts) (b : Bytes) (h : isValid o b = true) :
-    JText ⟨!o.allowInvalidUTF8, true⟩ maxNestingDepth id b := by
+/-- Soundness of `Value.IsValid`: accepted ⇒ `ws value ws` of the grammar instance selected by the
+options (RFC 7493 by default: strict UTF-8, unique names). -/
+theorem valid_sound (o : VOpts) (b : Bytes) (h : isValid o b = true) :
+    JText (gopts o) maxNestingDepth (nameKey o) b := by
   unfold isValid at h
   have : (validText o b).2 = .ok := by simpa using h
   exact validText_sound o b (validText o b).1 (Prod.ext rfl this)
 
-/-- The full statements.  `valid_sound_full` adds the uniqueness of names (as compared by `nameKey`)
-to `valid_sound_partial`; `valid_complete_full` is the converse; `stream_iff_full` is the stream
-recogniser.  They are validated by the correspondence runs, not proved. -/
-def valid_sound_full : Prop :=
-  ∀ (o : VOpts) (b : Bytes), isValid o b = true → JText (gopts o) maxNestingDepth (nameKey o) b
-
+/-- The full statements that are NOT proved.  `valid_complete_full` is the converse of `valid_sound`
+(including "`fuelFor` suffices"); `stream_iff_full` is the stream recogniser; `token_value_full` says that the
+token path (Model/TokenLoop.lean) and the value path give the same verdict.  They are validated by the
+correspondence runs (the harness compares both model paths with each other and with the code on every input). -/
 def valid_complete_full : Prop :=
   ∀ (o : VOpts) (b : Bytes), JText (gopts o) maxNestingDepth (nameKey o) b → isValid o b = true
 
 def stream_iff_full : Prop :=
   ∀ (o : VOpts) (b : Bytes), (∃ cnt, stream o b = (cnt, b.length, .ioEOF)) ↔ JStream (gopts o) maxNestingDepth (nameKey o) b
+
+/-- "read by tokens or by values": the ReadToken loop and the ReadValue loop complete the same number of
+top-level values and end cleanly (io.EOF) on exactly the same inputs (no slice exceeds 2^61 bytes). -/
+def token_value_full : Prop :=
+  ∀ (o : VOpts) (b : Bytes), b.length < 2 ^ 61 →
+    ((Model.TokenLoop.tokens o b).1 = (stream o b).1 ∧
+     ((Model.TokenLoop.tokens o b).2.2 = .ioEOF ↔ (stream o b).2.2 = .ioEOF))
 
 -- `[1,{"a":null}] ` is accepted; `[1,]` is rejected at offset 3; two equal names are rejected unless allowed
 example : isValid {} [0x5B, 0x31, 0x2C, 0x7B, 0x22, 0x61, 0x22, 0x3A, 0x6E, 0x75, 0x6C, 0x6C, 0x7D, 0x5D, 0x20] = true := by decide +kernel
